@@ -656,6 +656,23 @@ class SymReal:
         e = self.n.z3()
         return SymReal(Poly.atom(z3.If(e >= 0, e, -e)), self.d)
 
+    def __floordiv__(self, o):
+        """floor(self / o) for a positive divisor: the integer k with k * o <= self < (k + 1) * o"""
+        c = ctx()
+        o = _real(o)
+        if not bool(o > 0):
+            raise Unsupported("floor division by a non-positive symbolic value")
+        k = c.fresh_int("floordiv")
+        kr = _real(k)
+        c.add(And(kr * o <= self, self < (kr + 1) * o).e)
+        return kr
+
+    def __rfloordiv__(self, o):
+        return _real(o).__floordiv__(self)
+
+    def __mod__(self, o):
+        return self - self.__floordiv__(o) * o
+
     def __round__(self, ndigits=None):
         """round(x, n): the multiple k / 10^n nearest to x (at an exact tie either neighbour: Python rounds the binary value
         half-to-even, ties are a null set and replay filters them)"""
